@@ -90,6 +90,14 @@ func NewKrbEnv(dir string, realms map[string][]string, defaultRealm string) (*Kr
 		}
 		sb.WriteString(" }\n")
 	}
+	// host-to-realm mapping as real installations have it; realm names in requests are
+	// realm names, not host names, and are not subject to it
+	sb.WriteString("\n[domain_realm]\n")
+	for r := range realms {
+		if strings.Count(r, ".") == 1 {
+			fmt.Fprintf(&sb, " .%s = %s\n %s = %s\n", strings.ToLower(r), r, strings.ToLower(r), r)
+		}
+	}
 	k.Krb5Conf = filepath.Join(dir, "krb5.conf")
 	if err := os.WriteFile(k.Krb5Conf, []byte(sb.String()), 0600); err != nil {
 		return nil, err
